@@ -165,7 +165,7 @@ Definition check_c19 (c : c19_case) : bool * bool :=
 
 (** ** Case of a real run (children really sleep): the timeouts are not observed, their effects
     are; plus wall clock (milliseconds) and liveness of the children afterwards. *)
-Definition slack_ms : N := 6000.   (* start-up of the interpreter + parsing + process creation *)
+Definition slack_ms : N := 10000.  (* start-up of the interpreters (Exactly, children) + parsing + process creation, on a loaded machine *)
 Record c19_real := C19Real { r_tc : tcase; r_keep : bool; r_obs : c19_obs; r_wall_ms : N; r_children_dead : bool }.
 Definition check_c19_real (c : c19_real) : bool * bool :=
   let waits := total_wait (calls_of (fst (texecute (r_tc c)))) in
